@@ -2002,7 +2002,11 @@ package zygo
 //@ ghost steps := 0 @entry
 //@ ghost steps := steps + 1 @after call NumericDo[0]
 //@ C07 assert every-operand-goes-through-the-tower @before call NumericDo[0]: arg1 == accum && arg2 == expr
-//@ C07 loop 0 invariant steps == rangeindex + 1
+//@ ghost prev := nil @entry
+//@ ghost prev := ret0[0] @after call SubstituteRHS[0]
+//@ ghost prev := ret0 @after call NumericDo[0]
+//@ C07 assert the-running-value-is-the-first-operand-then-the-last-result @before call NumericDo[0]: arg1 == prev
+//@ C07 loop 0 invariant steps == rangeindex + 1 && accum == prev
 //@ ghost nOps := 0 @entry
 //@ ghost nOps := len(ret0) @after call SubstituteRHS[0]
 //@ C07 ensures no-operand-is-skipped: r1 == nil ==> steps == nOps - 1
